@@ -31,6 +31,12 @@ func ProfileFor(prop string) Profile {
 	case "limit":
 		p.MaxHeight = 6
 		p.WBind = 25
+	case "reject":
+		p.MaxHeight = 7
+		p.WBind = 25
+		p.Cycles = true
+		p.WAddRemove = 12
+		p.MapNShare = 25
 	case "churn":
 		p.WObserve = 20
 		p.WUnobserve = 18
